@@ -28,6 +28,15 @@ type afSpec struct {
 	Ign   *bool  `json:"ign,omitempty"`  // lag 4th arg / had_changed / changed_col first arg
 	Part  bool   `json:"part,omitempty"` // OVER (PARTITION BY p)
 	When  string `json:"when,omitempty"` // "", "gt2", "ge0"
+	PCol  string `json:"pcol,omitempty"` // partition column: "" = p, "o.p" = nested path (a top-level p with another value is a decoy)
+	Cond  string `json:"cond,omitempty"` // acc_*: "" | "start" acc(v, w >= 3) | "startreset" acc(v, w >= 3, w < 1)
+}
+
+func (a afSpec) pcol() string {
+	if a.PCol != "" {
+		return a.PCol
+	}
+	return "p"
 }
 
 func (a afSpec) sql() string {
@@ -74,13 +83,20 @@ func (a afSpec) sql() string {
 	case "coal":
 		call = "coalesce(lag(v), -1)"
 	default:
-		call = a.Fn + "(v)"
+		switch a.Cond {
+		case "start":
+			call = a.Fn + "(v, w >= 3)"
+		case "startreset":
+			call = a.Fn + "(v, w >= 3, w < 1)"
+		default:
+			call = a.Fn + "(v)"
+		}
 	}
 	over := ""
 	if a.Part || a.When != "" {
 		var parts []string
 		if a.Part {
-			parts = append(parts, "PARTITION BY p")
+			parts = append(parts, "PARTITION BY "+a.pcol())
 		}
 		switch a.When {
 		case "gt2":
@@ -99,12 +115,17 @@ func (c14) Gen(rng *simrt.Rand, seed uint64, tier string) *Case {
 	}
 	c := &Case{X: map[string]any{}}
 	part := rng.Bool(0.8)
+	pcol := ""
+	if part && rng.Bool(0.25) {
+		pcol = "o.p"
+	}
+	c.X["pcol"] = pcol
 	fns := []string{"lag", "lag", "latest", "had_changed", "changed_col", "acc_sum", "acc_count", "acc_avg", "acc_min", "acc_max", "diff", "range"}
 	nf := 1 + rng.Intn(4)
 	var specs []afSpec
 	var sel []string
 	for i := 0; i < nf; i++ {
-		a := afSpec{Alias: fmt.Sprintf("f%d", i), Fn: fns[rng.Intn(len(fns))], Part: part}
+		a := afSpec{Alias: fmt.Sprintf("f%d", i), Fn: fns[rng.Intn(len(fns))], Part: part, PCol: pcol}
 		switch a.Fn {
 		case "lag":
 			switch rng.Intn(4) {
@@ -124,6 +145,8 @@ func (c14) Gen(rng *simrt.Rand, seed uint64, tier string) *Case {
 		case "had_changed", "changed_col":
 			ig := rng.Bool(0.5)
 			a.Ign = &ig
+		case "acc_sum", "acc_count", "acc_avg", "acc_min", "acc_max":
+			a.Cond = []string{"", "", "start", "startreset", "startreset"}[rng.Intn(5)]
 		}
 		if rng.Bool(0.25) && a.Fn != "diff" && a.Fn != "range" {
 			a.When = []string{"gt2", "ge0"}[rng.Intn(2)]
@@ -137,7 +160,7 @@ func (c14) Gen(rng *simrt.Rand, seed uint64, tier string) *Case {
 	if hasCC {
 		over := ""
 		if part {
-			over = " OVER (PARTITION BY p)"
+			over = " OVER (PARTITION BY " + afSpec{PCol: pcol}.pcol() + ")"
 		}
 		sel = append(sel, fmt.Sprintf("changed_cols('c_', %v, v, w)%s", ccIgn, over))
 	}
@@ -151,7 +174,7 @@ func (c14) Gen(rng *simrt.Rand, seed uint64, tier string) *Case {
 		where, whereKind = " WHERE w >= 0", "plain_w"
 	case 2:
 		if part {
-			where, whereKind = " WHERE had_changed(true, v) OVER (PARTITION BY p)", "analytic_hc"
+			where, whereKind = " WHERE had_changed(true, v) OVER (PARTITION BY "+afSpec{PCol: pcol}.pcol()+")", "analytic_hc"
 		} else {
 			where, whereKind = " WHERE had_changed(true, v)", "analytic_hc"
 		}
@@ -159,7 +182,7 @@ func (c14) Gen(rng *simrt.Rand, seed uint64, tier string) *Case {
 	sql := "SELECT id, p, v, " + strings.Join(sel, ", ") + " FROM stream" + where
 	var specsAny []any
 	for _, a := range specs {
-		m := map[string]any{"alias": a.Alias, "fn": a.Fn, "off": a.Off, "part": a.Part, "when": a.When}
+		m := map[string]any{"alias": a.Alias, "fn": a.Fn, "off": a.Off, "part": a.Part, "when": a.When, "cond": a.Cond, "pcol": a.PCol}
 		if a.Def != nil {
 			m["def"] = *a.Def
 		}
@@ -198,7 +221,13 @@ func (c14) Gen(rng *simrt.Rand, seed uint64, tier string) *Case {
 		pi := rng.Intn(len(parts))
 		owner := pi % nclients
 		row := Row{"id": fmt.Sprintf("r%03d", i), "w": rng.Intn(5)}
-		if parts[pi] != nil || rng.Bool(0.5) {
+		if pcol != "" {
+			// nested partition key; the top-level column of the same bare name is a decoy
+			// (o.p is always present, possibly NULL: what a row without o.p but with a top-level p
+			// belongs to is not something the property defines)
+			row["o"] = map[string]any{"q": i, "p": parts[pi]}
+			row["p"] = []any{"a", "b", 1}[rng.Intn(3)]
+		} else if parts[pi] != nil || rng.Bool(0.5) {
 			row["p"] = parts[pi]
 		}
 		switch rng.Intn(10) {
@@ -257,6 +286,26 @@ type refState struct {
 	hasNum  bool
 	last    any // last result (WHEN gating)
 	hasLast bool
+	started bool // conditional accumulation: inside an accumulation phase
+	w       any  // the current row's w (start / reset conditions), set by the caller before apply
+}
+
+// accGate implements acc_xxx(expr, start, reset): a row whose reset condition holds empties the
+// accumulator and leaves the phase (the row itself is not counted); otherwise rows count from
+// the first row whose start condition holds.
+func (st *refState) accGate(cond string) (count bool) {
+	w, ok := toFloat(st.w)
+	if cond == "startreset" && ok && w < 1 {
+		st.sum, st.cnt, st.mn, st.mx, st.hasNum, st.started = 0, 0, 0, 0, false, false
+		return false
+	}
+	if cond == "start" || cond == "startreset" {
+		if !(ok && w >= 3) && !st.started {
+			return false
+		}
+		st.started = true
+	}
+	return true
 }
 
 func refEqual(a, b any) bool {
@@ -344,25 +393,35 @@ func (a afSpec) apply(st *refState, v any) any {
 		st.prev, st.hasPrev = v, true
 		return res
 	case "acc_sum":
-		st.acc(v)
+		if st.accGate(a.Cond) {
+			st.acc(v)
+		}
 		return st.sum
 	case "acc_count":
-		st.acc(v)
+		if st.accGate(a.Cond) {
+			st.acc(v)
+		}
 		return st.cnt
 	case "acc_avg":
-		st.acc(v)
+		if st.accGate(a.Cond) {
+			st.acc(v)
+		}
 		if st.cnt == 0 {
 			return nil
 		}
 		return st.sum / float64(st.cnt)
 	case "acc_min":
-		st.acc(v)
+		if st.accGate(a.Cond) {
+			st.acc(v)
+		}
 		if !st.hasNum {
 			return nil
 		}
 		return st.mn
 	case "acc_max":
-		st.acc(v)
+		if st.accGate(a.Cond) {
+			st.acc(v)
+		}
 		if !st.hasNum {
 			return nil
 		}
@@ -414,6 +473,8 @@ func loadAfSpecs(c *Case) []afSpec {
 		}
 		a.Part, _ = m["part"].(bool)
 		a.When, _ = m["when"].(string)
+		a.Cond, _ = m["cond"].(string)
+		a.PCol, _ = m["pcol"].(string)
 		if d, ok := toInt64(m["def"]); ok {
 			if _, has := m["def"]; has {
 				di := int(d)
@@ -486,6 +547,10 @@ func (c14) Run(e *Env) {
 		if !part {
 			return "*"
 		}
+		if e.C.xStr("pcol") == "o.p" {
+			o, _ := row["o"].(map[string]any)
+			return canon(o["p"])
+		}
 		return canon(row["p"])
 	}
 	nEmitClients := len(e.C.Clients) / 2
@@ -542,6 +607,7 @@ func (c14) Run(e *Env) {
 							out = states[i].last
 						}
 					} else {
+						states[i].w = row["w"]
 						out = a.apply(states[i], v)
 						states[i].last, states[i].hasLast = out, true
 					}
